@@ -28,7 +28,6 @@ class FTPServer(FTPServiceABC, discriminator="ftp-server"):
         server_password: Optional[str] = None
 
     config: ConfigSchema = Field(default_factory=lambda: FTPServer.ConfigSchema())
-    server_password: Optional[str] = None
 
     def __init__(self, **kwargs):
         kwargs["name"] = "ftp-server"
